@@ -41,6 +41,7 @@ type VerifC05Op struct {
 	Parts []VerifC05Part `json:"parts"`
 	Grp   int            `json:"grp"` // merged-read entity id for Mrg parts
 	After [][2]int       `json:"after"` // do not start before client [0] has finished its op [1]
+	Reuse int            `json:"reuse"` // txn: > 0 = execute through this client's long-lived *Transaction object number Reuse, refilled per call
 	Held0 bool           `json:"held0"` // do not start before client 0 is held at the gate's hook point
 	Sync  int            `json:"sync"`  // > 0: spin until all clients have reached their op with this round number
 	// setns: write dataset D's meta entity with new publicNamespaces into core.Dataset
@@ -51,6 +52,7 @@ type VerifC05Case struct {
 	Kind     string         `json:"kind"`  // mix | forced | coretxn
 	Procs    int            `json:"procs"` // GOMAXPROCS
 	Nds      int            `json:"nds"`   // shared datasets d001..d<nds>
+	Versions int            `json:"versions"` // setup: entity ns3:many gets this many versions in d001; readers look it up in a loop
 	Twins    int            `json:"twins"` // further shared datasets dX00,dx00 .. : pairs of names that differ only in case
 	Groups   [][]int        `json:"groups"`
 	Threads  [][]VerifC05Op `json:"threads"`
@@ -272,6 +274,7 @@ type vc05Env struct {
 	store   *Store
 	dsm     *DsManager
 	c       VerifC05Case
+	txns    []map[int]*Transaction // per client: long-lived transaction objects
 	handles []map[int]*Dataset // per client: the dataset objects CreateDataset handed to it
 	rounds  [64]int32          // arrivals per sync round
 	doneMu  sync.Mutex
@@ -327,6 +330,14 @@ func (env *vc05Env) runOp(tid, k int, op VerifC05Op) error {
 		return ds.StoreEntities(env.partEntities(tid, k, p, op.Grp))
 	case "txn", "txnfail":
 		txn := &Transaction{DatasetEntities: map[string][]*Entity{}}
+		if op.Reuse > 0 {
+			// what a JS transform with a top-level `var txn = NewTransaction()` does: one object, refilled per call
+			if env.txns[tid][op.Reuse] == nil {
+				env.txns[tid][op.Reuse] = txn
+			}
+			txn = env.txns[tid][op.Reuse]
+			txn.DatasetEntities = map[string][]*Entity{}
+		}
 		for _, p := range op.Parts {
 			txn.DatasetEntities[vc05Name(p.D)] = env.partEntities(tid, k, p, op.Grp)
 		}
@@ -465,6 +476,18 @@ func vc05Setup(c VerifC05Case, dir string) (*vc05Env, func(), error) {
 				return env, cleanup, err
 			}
 		}
+		if d == 1 && c.Versions > 0 {
+			var vs []*Entity
+			for i := 0; i < c.Versions; i++ {
+				vs = append(vs, vc05Ent("ns3:many", -i-2))
+				if len(vs) == 1000 || i == c.Versions-1 {
+					if err := ds.StoreEntities(vs); err != nil {
+						return env, cleanup, err
+					}
+					vs = nil
+				}
+			}
+		}
 	}
 	return env, cleanup, nil
 }
@@ -479,6 +502,10 @@ func vc05Execute(env *vc05Env, threads [][]VerifC05Op, kbase int, forced bool, w
 	env.doneCv = sync.NewCond(&env.doneMu)
 	env.done = make([]int, len(threads))
 	env.rounds = [64]int32{}
+	env.txns = make([]map[int]*Transaction, len(threads))
+	for t := range threads {
+		env.txns[t] = map[int]*Transaction{}
+	}
 	env.handles = make([]map[int]*Dataset, len(threads))
 	for t := range threads {
 		env.handles[t] = map[int]*Dataset{}
@@ -574,6 +601,11 @@ func vc05Execute(env *vc05Env, threads [][]VerifC05Op, kbase int, forced bool, w
 							snaps = append(snaps, snap{d, ms})
 						}
 						rmu.Unlock()
+					}
+				}
+				if c.Versions > 0 {
+					for i := 0; i < 20; i++ {
+						_, _ = env.store.GetEntity("ns3:many", nil, true)
 					}
 				}
 				for g, grp := range c.Groups {
